@@ -4,7 +4,7 @@
    Language: a string belongs to the PEP 440 version language iff it is the rendering of a well-formed spelling (parse tree). *)
 From Coq Require Import List Arith NArith Bool Lia.
 Import ListNotations.
-Require Import VParse VComplete VTop VTop2 VDec Py VMeaning SpecModel SpecParse SpecSound SpecContains SpecSem SpecLink VWf VKeyEq VAscii.
+Require Import VParse VComplete VTop VTop2 VDec Py VMeaning SpecModel SpecParse SpecSound SpecContains SpecSem SpecLink VWf VKeyEq VAscii VGnfExists SpecComplete.
 Open Scope N_scope.
 
 Definition In_version_language (s : str) : Prop := exists sp, wf_spelling sp /\ render sp = s.
@@ -24,8 +24,15 @@ Print Assumptions C12_version_sound.
 Theorem C12_version_complete_gnf sp : gnf sp = true -> Version (render sp) = Some (meaning sp).
 Proof. intros G. unfold Version. now rewrite (parse_spelling_complete sp G). Qed.
 Print Assumptions C12_version_complete_gnf.
-(* NOT PROVED: every rendering of a well-formed spelling also has a greedy-normal-form spelling (wf_spelling sp -> exists sp', gnf sp' = true /\
-   render sp' = render sp); that half of "accepts exactly" is covered by the bounded-exhaustive correspondence stream only. *)
+(* 2b. ... and hence EVERY string of the language, whichever of its parse trees it is rendered from (render is not injective: "1.0a-1" is both
+   "pre a + implicit post 1" and "pre a-1"; the greedy scanner picks one tree and never fails where another derivation exists) *)
+Theorem C12_version_accepts_exactly_the_language s : In_version_language s <-> exists v, Version s = Some v.
+Proof.
+  split.
+  - intros (sp & W & <-). destruct (version_language_complete sp W) as [sp' E]. unfold Version. rewrite E. eexists; reflexivity.
+  - intros [v E]. exact (C12_version_sound s v E).
+Qed.
+Print Assumptions C12_version_accepts_exactly_the_language.
 
 (* 3. only ASCII letters and digits: an accepted string consists of ASCII characters between its surrounding whitespace *)
 Theorem C12_version_ascii_only s v : Version s = Some v ->
@@ -47,5 +54,12 @@ Print Assumptions C12_specifier_sound.
 Theorem C12_specifier_form_table s sp : Specifier s = Some sp -> exists f, interp sp = Some f /\ form_ok (sp_op sp) f.
 Proof. exact (Specifier_interp s sp). Qed.
 Print Assumptions C12_specifier_form_table.
-(* NOT PROVED: completeness of the specifier scanner (every operator + admitted form is accepted) - covered by the generated and
-   bounded-exhaustive correspondence streams. *)
+(* 6. Specifier accepts exactly the language: one operator followed by a form that operator permits, with optional whitespace *)
+Theorem C12_specifier_accepts_exactly_the_language s : In_specifier_language s <-> exists sp, Specifier s = Some sp.
+Proof.
+  split.
+  - intros (t & <- & W1 & W2 & W3 & WB). destruct (specifier_language_complete t W1 W2 W3 WB) as [t' E].
+    unfold Specifier. rewrite E. eexists; reflexivity.
+  - intros [sp E]. exact (C12_specifier_sound s sp E).
+Qed.
+Print Assumptions C12_specifier_accepts_exactly_the_language.
